@@ -203,6 +203,12 @@ static void gen(Plan* p, Rng* r, int tier, long idx) {
         plan_set(p, "chunk_seed", (int64_t)(rng_u64(r) >> 2));
     }
     plan_set(p, "combo", combo);
+    /* family "sequence-count boundaries" (1 run in 24, mode 0): one block holding exactly K sequences, K around the three encodings of
+     * Number_of_Sequences (1 byte < 128, 2 bytes < 0x7F00, 3 bytes above) */
+    plan_set(p, "nbseq_k", 0);
+    if ((idx % 24) == 12) { static const int ks[] = { 1, 126, 127, 128, 129, 254, 255, 256, 257, 32510, 32511, 32512, 32513, 32514, 32767 };
+        plan_set(p, "nbseq_k", ks[rng_below(r, sizeof ks / sizeof ks[0])]); plan_set(p, "mode", 0); plan_set(p, "c.blockDelimiters", 1); plan_set(p, "c.minMatch", 4); plan_set(p, "c.windowLog", rng_range(r, 17, 22)); plan_set(p, "c.maxBlockSize", 0);
+        plan_set(p, "dict_kind", 0); plan_set(p, "corrupt", 0); plan_set(p, "c.targetCBlockSize", 0); plan_set(p, "alloc_fail", 0); plan_set(p, "in_size", 140000); }
     plan_set(p, "alloc_fail", rng_coin(r, 1, 8) ? (int64_t)(1 + rng_below(r, 12)) : 0);
     plan_set(p, "reuse_first", rng_coin(r, 1, 4));
 }
@@ -256,7 +262,17 @@ static void exec(const Plan* p) {
         if (structured && sess_get_cparam(p, "dictIDFlag", 1)) want_id = ZDICT_getDictID(s.dict, s.dict_size);
     }
     /* ---- build the list ---- */
-    if (mode <= 1) {
+    if (plan_get(p, "nbseq_k", 0) > 0 && mode == 0) {
+        size_t const K = (size_t)plan_get(p, "nbseq_k", 1); size_t const body = 4 + 4 * K; size_t tail, k2; Rng rb; rng_seed(&rb, (uint64_t)plan_get(p, "parse_seed", 1), "nbseq");
+        if (body <= ((size_t)128 << 10)) {
+            tail = (size_t)rng_below(&rb, ((size_t)128 << 10) - body + 1); if (tail > 2000) tail = (size_t)rng_below(&rb, 2000);
+            free(s.in); s.in_size = body + tail + (size_t)rng_below(&rb, 3000); s.in = (uint8_t*)malloc(s.in_size + 1);
+            gen_input(&rb, GEN_RANDOM, s.in, s.in_size); for (k2 = 4; k2 < body; k2++) s.in[k2] = s.in[k2 - 4];
+            l.n = 0; sl_push(&l, 4, 4, 4); for (k2 = 1; k2 < K; k2++) sl_push(&l, 0, 4, 4); sl_push(&l, (uint32_t)tail, 0, 0); l.nblocks = 1;
+            if (s.in_size > body + tail) { sl_push(&l, (uint32_t)(s.in_size - body - tail), 0, 0); l.nblocks = 2; }
+            sim_probe("c17.sequence_count_boundary");
+        }
+    } else if (mode <= 1) {
         my_parse(&ps, s.in, s.in_size, dc, dcn, mm, W, &r);
         if (mode == 0) to_explicit(&l, &ps, s.in_size, bmax < 1 ? 1 : bmax, mm, &r); else to_nodelim(&l, &ps);
         if (mode == 1) { /* two long lengths may not meet in one block, and the library decides the blocks: demote later long lengths in any 128 KiB neighbourhood */
